@@ -1133,6 +1133,30 @@ func Resolve(v ssa.Value) ssa.Value {
 			}
 			addr = b
 		}
+		// a field of a local struct that is written exactly once (values grouped in a small struct)
+		if fa, isFA := addr.(*ssa.FieldAddr); isFA {
+			if al, ok := fa.X.(*ssa.Alloc); ok && !escapesWhole(al) {
+				var only *ssa.Store
+				n := 0
+				if refs := al.Referrers(); refs != nil {
+					for _, r := range *refs {
+						if f2, ok := r.(*ssa.FieldAddr); ok && f2.Field == fa.Field && f2.Referrers() != nil {
+							for _, r2 := range *f2.Referrers() {
+								if st, ok := r2.(*ssa.Store); ok && st.Addr == ssa.Value(f2) {
+									only = st
+									n++
+								}
+							}
+						}
+					}
+				}
+				if n == 1 {
+					v = only.Val
+					continue
+				}
+			}
+			return v
+		}
 		a, isAlloc := addr.(*ssa.Alloc)
 		if !isAlloc {
 			return v
@@ -1145,6 +1169,34 @@ func Resolve(v ssa.Value) ssa.Value {
 		v = sts[0].Val
 	}
 	return v
+}
+
+// escapesWhole: the struct variable is used other than through its fields (passed on, stored, captured, copied
+// over as a whole), so a field may change behind the analysis' back.
+func escapesWhole(a *ssa.Alloc) bool {
+	refs := a.Referrers()
+	if refs == nil {
+		return false
+	}
+	for _, r := range *refs {
+		switch x := r.(type) {
+		case *ssa.FieldAddr, *ssa.DebugRef:
+		case *ssa.UnOp:
+			// a load of the whole value is harmless
+		case *ssa.Store:
+			if x.Addr == ssa.Value(a) {
+				// whole-struct assignment: only the zero value / a composite literal start is fine; be conservative
+				if _, isConst := x.Val.(*ssa.Const); !isConst {
+					return true
+				}
+			} else {
+				return true
+			}
+		default:
+			return true
+		}
+	}
+	return false
 }
 
 // capturedAndStored reports whether alloc a is captured by a closure that stores to it.
